@@ -139,6 +139,14 @@ def run(ctx):
             if kinds or (len(inputs) >= 2 and "CC>>CCCO" in inputs):
                 ctx.nontrivial.add((json.dumps(inputs), bs, "list"))
             check(ctx, "list-of-str" if stringy else "list-of-dict", inputs, bs, rows, err, kinds)
+    # the configuration matrix: one row per given reaction, in order, for every source form / cache state / worker count
+    import matrix
+    for run in matrix.runs(ctx):
+        if "fed in again" in run["config"]:
+            continue           # rows that pre-populate the tool's own output columns are not in this property's domain
+        ctx.evaluations += 1
+        ctx.count("S", "matrix_runs")
+        check(ctx, "configuration matrix: " + run["config"], run["given"], None, run["rows"], run["error"], [])
     # the cache switched on: a later list must get ITS rows even when an earlier list of the same length looks alike (same reactions in
     # another order; reaction strings that concatenate to the same text)
     cdir = tempfile.mkdtemp(prefix="synrbl_c05c_")
